@@ -22,6 +22,7 @@ let parse_op (o : string) : lop option =
     | ["G"] -> Some LGate
     | ["U"] -> Some LUngate
     | [a; _] when a.[0] = 'b' -> Some (LBusy (num (rest_of a)))
+    | [a] when a.[0] = 't' -> Some (LUpgrade (num (rest_of a)))
     | [a] when a.[0] = 'q' -> Some (LQuit (num (rest_of a)))
     | [a] when a.[0] = 'e' -> Some (LEnd (num (rest_of a)))
     | ["DS"] -> Some (LDrain PSmtp)
@@ -87,7 +88,7 @@ let () =
   Mlutil.iter_lines (fun line ->
     let (kind, ins, outs) = Mlutil.split_case line in
     match kind, ins with
-    | ("life" | "tls" | "lifet"), [ops] ->
+    | ("life" | "tls" | "lifet" | "stls"), [ops] ->
         let toks = if ops = "-" then [] else split ',' ops in
         let lops = List.map parse_op toks in
         if List.exists (fun x -> x = None) lops then Mlutil.print_model ["BADOPS"] "ok"
